@@ -8,6 +8,10 @@ import (
 	"strings"
 	"time"
 
+	"github.com/ipld/go-ipld-prime/codec/dagcbor"
+	"github.com/ipld/go-ipld-prime/datamodel"
+	"github.com/ipld/go-ipld-prime/fluent/qp"
+	"github.com/ipld/go-ipld-prime/node/basicnode"
 	"github.com/libp2p/go-libp2p/core/peer"
 
 	datatransfer "github.com/filecoin-project/go-data-transfer/v2"
@@ -309,6 +313,39 @@ func wantCall(name string, m datatransfer.Message, from peer.ID) string {
 	return "response:" + string(from) + ":" + summary(d)
 }
 
+// flipIsRq re-encodes a message envelope with its IsRq discriminator negated.
+func flipIsRq(enc []byte) []byte {
+	nb := basicnode.Prototype.Any.NewBuilder()
+	if err := dagcbor.Decode(nb, bytes.NewReader(enc)); err != nil {
+		panic(err)
+	}
+	n := nb.Build()
+	out, err := qp.BuildMap(basicnode.Prototype.Any, n.Length(), func(ma datamodel.MapAssembler) {
+		it := n.MapIterator()
+		for !it.Done() {
+			k, v, err := it.Next()
+			if err != nil {
+				panic(err)
+			}
+			ks, _ := k.AsString()
+			if ks == "IsRq" {
+				b, _ := v.AsBool()
+				qp.MapEntry(ma, ks, qp.Bool(!b))
+			} else {
+				qp.MapEntry(ma, ks, qp.Node(v))
+			}
+		}
+	})
+	if err != nil {
+		panic(err)
+	}
+	var buf bytes.Buffer
+	if err := dagcbor.Encode(out, &buf); err != nil {
+		panic(err)
+	}
+	return buf.Bytes()
+}
+
 type inCase struct {
 	Items []string // kind names, or "bad:<class>:<hex>"
 }
@@ -325,7 +362,10 @@ func c15Inbound(x *mc.Cell, full bool) {
 	bads["empty-map"] = []byte{0xa0}
 	bads["isrq-wrong-type"] = []byte{0xa3, 0x64, 'I', 's', 'R', 'q', 0x01, 0x67, 'R', 'e', 'q', 'u', 'e', 's', 't', 0xf6, 0x68, 'R', 'e', 's', 'p', 'o', 'n', 's', 'e', 0xf6}
 	bads["both-bodies-null"] = []byte{0xa3, 0x64, 'I', 's', 'R', 'q', 0xf5, 0x67, 'R', 'e', 'q', 'u', 'e', 's', 't', 0xf6, 0x68, 'R', 'e', 's', 'p', 'o', 'n', 's', 'e', 0xf6}
-	badNames := []string{"truncated-half", "truncated-1", "not-cbor", "wrong-type-top", "empty-map", "isrq-wrong-type", "both-bodies-null"}
+	// a well-formed envelope whose IsRq flag contradicts the body it carries
+	bads["flag-response-body-request"] = flipIsRq(good)
+	bads["flag-request-body-response"] = flipIsRq(encode(ks["resp-new"]))
+	badNames := []string{"truncated-half", "truncated-1", "not-cbor", "wrong-type-top", "empty-map", "isrq-wrong-type", "both-bodies-null", "flag-response-body-request", "flag-request-body-response"}
 
 	run := func(items []string, nilDelegate bool) {
 		x.Executions++
